@@ -948,3 +948,82 @@ Proof.
   eexists. apply trilinear_some; eassumption.
 Qed.
 
+(* ------------------------------------------------------------------ part 9 *)
+Open Scope Q_scope.
+
+(** * T1 at file level: the velocity lies between the extremes of the eight masked, unpacked nodes *)
+Lemma floor_frac x : 0 <= x - inject_Z (qfloor x) <= 1.
+Proof.
+  destruct (qfloor_spec x) as [A B]. rewrite inject_Z_plus in B. change (inject_Z 1) with 1 in B. lra.
+Qed.
+Lemma tri_formula_bounds a p q lo hi v1 v2 v3 v4 v5 v6 v7 v8 :
+  0 <= a <= 1 -> 0 <= p <= 1 -> 0 <= q <= 1 ->
+  Forall (fun v => lo <= v <= hi) [v1; v2; v3; v4; v5; v6; v7; v8] ->
+  lo <= tri_formula a p q v1 v2 v3 v4 v5 v6 v7 v8 <= hi.
+Proof.
+  intros Ha Hp Hq Hv.
+  pose proof (qdot_bounds (tri_weights a p q) [v1; v2; v3; v4; v5; v6; v7; v8] lo hi eq_refl
+                (tri_weights_nonneg a p q Ha Hp Hq) Hv) as B.
+  rewrite tri_weights_sum in B. rewrite tri_formula_dot. lra.
+Qed.
+Lemma file_velocity_convex mask fu fv pu pv g X Y K A lo hi :
+  (1 <= a_n mask)%Z -> a_n fv = a_n fu -> in_valid g X Y = true -> (1 <= K <= a_n fu - 1)%Z ->
+  0 <= A <= 1 ->
+  (forall k J I, (K - 1 <= k <= K)%Z -> (qfloor Y <= J <= qfloor Y + 1)%Z ->
+     (qfloor (X + (1#2)) - 1 <= I <= qfloor (X + (1#2)))%Z -> lo <= gU mask fu pu k J I <= hi) ->
+  (forall k J I, (K - 1 <= k <= K)%Z -> (qfloor (Y + (1#2)) - 1 <= J <= qfloor (Y + (1#2)))%Z ->
+     (qfloor X <= I <= qfloor X + 1)%Z -> lo <= gV mask fv pu pv k J I <= hi) ->
+  exists u v,
+    fst (fst (file_velocity mask fu fv pu pv g X Y K A)) = Some u /\
+    fst (snd (file_velocity mask fu fv pu pv g X Y K A)) = Some v /\
+    lo <= u <= hi /\ lo <= v <= hi.
+Proof.
+  intros Hn HN Hv HK HA HU HV.
+  destruct (file_velocity_u_ref mask fu fv pu pv g X Y K A Hn Hv HK) as (u & R1 & E1).
+  destruct (file_velocity_v_ref mask fu fv pu pv g X Y K A Hn Hv ltac:(lia)) as (v & R2 & E2).
+  exists u, v. split; [exact R1|]. split; [exact R2|]. split.
+  - rewrite E1. unfold ref_u. apply tri_formula_bounds; try exact HA; try apply floor_frac.
+    repeat constructor; apply HU; lia.
+  - rewrite E2. unfold ref_v. apply tri_formula_bounds; try exact HA; try apply floor_frac.
+    repeat constructor; apply HV; lia.
+Qed.
+
+(** * C17 on the arrays Grid/Forcing build *)
+Lemma read_velocity_shapes mask fu fv pu pv g :
+  let U := fst (read_velocity (grid_of mask g) fu fv pu pv) in
+  let V := snd (read_velocity (grid_of mask g) fu fv pu pv) in
+  (a_n U = a_n fu /\ a_j U = g_jmax g /\ a_i U = g_imax g + 1 /\
+   a_n V = a_n fv /\ a_j V = g_jmax g + 1 /\ a_i V = g_imax g)%Z.
+Proof.
+  unfold read_velocity, grid_of, g_jmax, g_imax. cbn [fst snd gr_sub].
+  destruct (scaled pu); cbn [mul_mask amap slice3 mk3 a_n a_j a_i]; repeat split; lia.
+Qed.
+Lemma read_field_shape mask ff pf g :
+  let F := read_field (grid_of mask g) ff pf in
+  (a_n F = a_n ff /\ a_j F = g_jmax g /\ a_i F = g_imax g)%Z.
+Proof.
+  unfold read_field, grid_of, g_jmax, g_imax. cbn [gr_sub].
+  destruct (scaled pf); cbn [amap slice3 mk3 a_n a_j a_i]; repeat split; lia.
+Qed.
+Lemma wf3_mk3 n jn im f : (0 <= n)%Z -> (0 <= jn)%Z -> (0 <= im)%Z -> wf3 (mk3 n jn im f).
+Proof.
+  intros Hn Hj Hi. unfold wf3, mk3. cbn [a_data a_n a_j a_i]. rewrite map_length. unfold zrange.
+  assert (L : forall len lo, length (zrange_aux lo len) = len).
+  { induction len as [|len IH]; intro lo; cbn [zrange_aux length]; [reflexivity|rewrite IH; reflexivity]. }
+  rewrite L. assert (0 <= n * jn * im)%Z by (repeat apply Z.mul_nonneg_nonneg; assumption). lia.
+Qed.
+
+(** every position in the clip range of subgrid [g]: reads of Forcing.velocity are inside U and V *)
+Lemma velocity_reads_in_bounds gr U V X Y K A m :
+  let g := gr_sub gr in
+  a_j U = g_jmax g -> a_i U = (g_imax g + 1)%Z -> a_j V = (g_jmax g + 1)%Z -> a_i V = g_imax g -> a_n V = a_n U ->
+  (1 <= K <= a_n U - 1)%Z ->
+  in_clip_range (g_imax g) (X - inject_Z (g_i0 g)) -> in_clip_range (g_jmax g) (Y - inject_Z (g_j0 g)) ->
+  forallb (in_shape (a_n U) (a_j U) (a_i U)) (snd (fst (velocity gr U V X Y K A m))) = true /\
+  forallb (in_shape (a_n V) (a_j V) (a_i V)) (snd (snd (velocity gr U V X Y K A m))) = true.
+Proof.
+  intros g S1 S2 S3 S4 S5 HK HX HY. unfold velocity. fold g.
+  destruct (sample3DUV_reads_in_bounds U V (g_imax g) (g_jmax g) (X - inject_Z (g_i0 g)) (Y - inject_Z (g_j0 g))
+              K A m S1 S2 S3 S4 S5 HK HX HY) as [B1 B2].
+  rewrite S1, S2, S3, S4, S5. split; assumption.
+Qed.
